@@ -44,7 +44,7 @@ WNames == <<"W_UlcTrue", "W_UlcFalseWrongKey", "W_UlcFalseTamper", "W_UlcHalfKey
             "W_AttributeError", "W_AttributeErrorLock", "W_IndexError", "W_ValueErrorResp", "W_FormatFalseChanged">>
 \* quick tier: the second operation of a behaviour is an authentication or tag.ndef (a second protect / lock / format
 \* is explored from the protected initial tags and in the thorough tier)
-SecondOpSmall == (nops >= 1 /\ pc # "idle") => op.name = "auth"
+SecondOpSmall == (nops >= 1 /\ pc # "idle") => (op.name = "auth" /\ resp = orig /\ tag.on)
 Reached == \A i \in DOMAIN WNames :
               (~WH(WNames[i]) /\ TLCGetOrDefault(i, 0) = 0) => (TLCSet(i, 1) /\ PrintT(<<"WITNESS", WNames[i]>>))
 =============================================================================
